@@ -7,7 +7,7 @@ import shutil
 import tempfile
 import warnings
 
-from .common import Suite, errname, hx, merge
+from .common import Oracle, Suite, errname, hx, merge
 
 GEN_UNITS = []
 LEAN_TARGETS = ["PasslibVerif.Props.C16"]
@@ -218,6 +218,125 @@ def quick_ctx():
     return CryptContext(["ldap_salted_sha1", "ldap_md5", "plaintext"], deprecated=["ldap_md5", "plaintext"])
 
 
+def semantic_cases(rng, rounds, tmp):
+    """real-code checks the line protocol does not carry; yields (tag, input, ok, observed, expected):
+    htdigest passwords in every file encoding against an independent MD5(user:realm:password); names longer than 255 *bytes* (multi-byte
+    text included) and names with separators/control characters are refused by every method of both classes with the state unchanged;
+    with autosave the file on disk equals the export after every change, the upgrade done by check_password included."""
+    import hashlib
+
+    from passlib import apache
+    from passlib.context import CryptContext
+    from passlib.hash import ldap_md5
+
+    pws = ["pw", "pässword", "ÿ", "café", "\xe9", "a b", "密码", ""]
+    users = ["u1", "Ünï", "é"]
+    for _ in range(rounds):
+        enc = rng.choice(["utf-8", "latin-1", "utf-8", "cp1252"])
+        u, r, pw = rng.choice(users), rng.choice(["r1", "é"]), rng.choice(pws)
+        as_bytes = rng.random() < 0.3
+        try:
+            ub, rb, pb = u.encode(enc), r.encode(enc), pw.encode(enc)
+        except UnicodeEncodeError:
+            continue
+        f = apache.HtdigestFile(encoding=enc)
+        inp = {"op": "digest-password", "encoding": enc, "user": u, "realm": r, "password": pw, "bytes_args": as_bytes}
+        try:
+            f.set_password(u, r, pb if as_bytes else pw)
+            want = hashlib.md5(ub + b":" + rb + b":" + pb).hexdigest()
+            got = f.get_hash(u, r)
+            got = got if isinstance(got, str) else got.decode()
+            yield ("digest-hash-is-md5", inp, got == want, got, want)
+            a = f.check_password(u, r, pw)
+            b = f.check_password(u, r, pb)
+            c = f.check_password(u, r, pw + "x")
+            d = f.check_password("nobody", r, pw)
+            other = next((q for q in pws if q != pw), "zz")
+            try:
+                e = f.check_password(u, r, other)
+            except Exception:  # noqa: BLE001
+                e = False
+            obs = (a, b, c, d, e)
+            yield ("digest-check_password", inp, obs == (True, True, False, None, False), obs, (True, True, False, None, False))
+            # a second file object reading the export answers alike
+            g = apache.HtdigestFile.from_string(f.to_string(), encoding=enc)
+            obs = (g.check_password(u, r, pw), g.check_password(u, r, pw + "x"))
+            yield ("digest-check-after-reload", inp, obs == (True, False), obs, (True, False))
+        except Exception as ex:  # noqa: BLE001
+            yield ("digest-password", inp, False, errname(ex), "no error")
+    # names
+    bad = ["a:b", "a\nb", "a\rb", "a\tb", "a\x00b", "x" * 256, "é" * 128, "€" * 86, "x" * 254 + "é"]
+    good = ["x" * 255, "é" * 127, "€" * 85, "a b"]
+    for cls, key in ((apache.HtpasswdFile, "passwd"), (apache.HtdigestFile, "digest")):
+        for name in bad + good:
+            for where in (("user", "realm") if key == "digest" else ("user",)):
+                for as_bytes in (False, True):
+                    f = cls.from_string(b"u1:r1:h1\n" if key == "digest" else b"u1:h1\n")
+                    before = f.to_string()
+                    nm = name.encode("utf-8") if as_bytes else name
+                    uu, rr = (nm, "r1") if where == "user" else ("u1", nm)
+                    if key == "digest":
+                        calls = [("set_hash", lambda: f.set_hash(uu, rr, "h")), ("set_password", lambda: f.set_password(uu, rr, "p")), ("delete", lambda: f.delete(uu, rr)),
+                                 ("check_password", lambda: f.check_password(uu, rr, "p")), ("get_hash", lambda: f.get_hash(uu, rr))]
+                    else:
+                        calls = [("set_hash", lambda: f.set_hash(uu, "h")), ("set_password", lambda: f.set_password(uu, "p")), ("delete", lambda: f.delete(uu)),
+                                 ("check_password", lambda: f.check_password(uu, "p")), ("get_hash", lambda: f.get_hash(uu))]
+                    for cname, call in calls:
+                        inp = {"op": "name", "class": cls.__name__, "field": where, "name": name, "bytes_args": as_bytes, "method": cname}
+                        if name in bad:
+                            try:
+                                call()
+                                obs = "accepted"
+                            except ValueError:
+                                obs = "ValueError"
+                            except Exception as ex:  # noqa: BLE001
+                                obs = errname(ex)
+                            yield ("bad-name-refused", inp, obs == "ValueError" and f.to_string() == before, obs if obs != "ValueError" else "state changed", "ValueError, state unchanged")
+                        else:
+                            try:
+                                call()
+                                obs = "accepted"
+                            except Exception as ex:  # noqa: BLE001
+                                obs = errname(ex)
+                            yield ("long-name-accepted", inp, obs == "accepted", obs, "accepted")
+    # autosave: disk == export after every change, including the hash upgrade made by check_password
+    cobj = CryptContext(["ldap_salted_sha1", "ldap_md5"], deprecated=["ldap_md5"])
+    for _ in range(max(4, rounds // 10)):
+        path = os.path.join(tmp, "auto_db")
+        if os.path.exists(path):
+            os.unlink(path)
+        f = apache.HtpasswdFile(path, new=True, autosave=True, context=cobj)
+        hist = []
+        for _k in range(rng.randrange(1, 6)):
+            u = rng.choice(["u1", "u2"])
+            k = rng.choice(["set_old", "check", "check", "set_pw", "delete", "check_wrong"])
+            hist.append([k, u])
+            if k == "set_old":
+                f.set_hash(u, ldap_md5.hash("pw"))
+            elif k == "set_pw":
+                f.set_password(u, "pw")
+            elif k == "delete":
+                f.delete(u)
+            elif k == "check":
+                as_s = lambda v: v if v is None or isinstance(v, str) else v.decode()  # noqa: E731
+                old = as_s(f.get_hash(u))
+                ans = f.check_password(u, "pw")
+                if old is not None and old.startswith("{MD5}"):
+                    new = as_s(f.get_hash(u))
+                    yield ("deprecated-upgraded", {"op": "autosave", "history": list(hist)}, ans is True and new.startswith("{SSHA}"), (ans, new), "True and a hash of the default scheme")
+            else:
+                f.check_password(u, "nope")
+            disk = open(path, "rb").read() if os.path.exists(path) else b""
+            yield ("autosave-disk-equals-export", {"op": "autosave", "history": list(hist)}, disk == f.to_string() or (not os.path.exists(path) and k in ("delete", "check", "check_wrong")),
+                   disk.decode("latin-1"), f.to_string().decode("latin-1"))
+        again = apache.HtpasswdFile(path, context=cobj) if os.path.exists(path) else None
+        if again is not None:
+            tob = lambda v: v if isinstance(v, bytes) else v.encode()  # noqa: E731  (an upgraded hash is kept as text until written)
+            obs = {k: tob(v) for k, v in again._records.items()}
+            cur = {k: tob(v) for k, v in f._records.items()}
+            yield ("autosave-reload-equals-records", {"op": "autosave", "history": list(hist)}, obs == cur, repr(obs), repr(cur))
+
+
 def correspond(ctx):
     import logging
 
@@ -328,9 +447,12 @@ def correspond(ctx):
                 s_file.add_raw(sim.line() + " T", (sim.answer() + " | ok " + hx(again.to_string())) if not changed else "load_if_changed reloaded an unchanged file", "save-load")
                 if os.path.exists(sim.path):
                     os.unlink(sim.path)
+        o_sem = Oracle(ctx, "passwords-names-autosave")
+        for tag, inp, ok, obs, exp in semantic_cases(rng, 150 if not ctx.thorough else 3000, tmp):
+            o_sem.check(tag, ok, inp, obs, exp)
     finally:
         shutil.rmtree(tmp, ignore_errors=True)
-    res = merge(s_exp, s_rnd, s_bytes, s_file, exhaustive=ctx.thorough)
+    res = merge(s_exp, s_rnd, s_bytes, s_file, o_sem, exhaustive=ctx.thorough)
     res["suites"]["explicit-state-sequences"]["independent_reader_checks"] = independent["checked"]
     return res
 
@@ -393,6 +515,13 @@ def search(ctx, broken, seeds):
     logging.disable(logging.WARNING)
     warnings.simplefilter("ignore")
     cobj = quick_ctx()
+    tmp = tempfile.mkdtemp(prefix="c16s_", dir=os.path.dirname(os.path.abspath(__file__)))
+    try:
+        for tag, inp, ok, obs, exp in semantic_cases(ctx.rng, 300, tmp):
+            if not ok:
+                return {"input": inp, "observed": obs, "expected": exp, "check": tag}
+    finally:
+        shutil.rmtree(tmp, ignore_errors=True)
     for digest in (False, True):
         inits = INITIAL_DIGEST if digest else INITIAL
         ops = small_ops(digest)
